@@ -199,13 +199,17 @@ structure FontEquiv (f f' : Font) : Prop where
   data : f'.data = f.data
   images : f'.images = f.images
 
+/-- a colour built through `Color::new` (finite channels ≥ 0), or one that was loaded -/
+def ColOK : ColV → Prop
+  | .bits r g b a => ∀ x ∈ [r, g, b, a], ∃ q, decode x = some q ∧ 0 ≤ q
+  | .milli _ _ _ _ => True
+
 /-- the number guards of `font_roundtrip` (the recorded finding lives outside them) -/
 structure NumbersOK (f : Font) : Prop where
   info : ∀ e ∈ f.info.nums, isLenKey e.1 = false → NumOK e.2
   upm : ∀ v, f.info.upm = some v → NumOK v ∧ ∀ q, v.val? = some q → 0 ≤ q
   kerning : ∀ e ∈ f.kerning, ∀ p ∈ e.2, NumOK p.2
-  colours : ∀ l ∈ f.layers, ∀ c, l.color = some c →
-    ∃ r g b a, c = ColV.bits r g b a ∧ ∀ x ∈ [r, g, b, a], ∃ q, decode x = some q ∧ 0 ≤ q
+  colours : ∀ l ∈ f.layers, ∀ c, l.color = some c → ColOK c
 
 theorem forall₂_map_self {α β : Type} (R : α → β → Prop) (g : α → β) (l : List α) (h : ∀ a ∈ l, R a (g a)) :
     List.Forall₂ R l (l.map g) := by
@@ -249,18 +253,20 @@ theorem chanEq_milli (x : Nat) (h : ∃ q, decode x = some q ∧ 0 ≤ q) : Chan
   exact ⟨q, h1, by simpa [chanMilli, h1] using milliOf_close q h2⟩
 
 /-- `layerinfo_roundtrip`: colour to three decimals, lib as a map -/
-theorem layerinfo_roundtrip (l : Layer)
-    (hc : ∀ c, l.color = some c → ∃ r g b a, c = ColV.bits r g b a ∧ ∀ x ∈ [r, g, b, a], ∃ q, decode x = some q ∧ 0 ≤ q) :
+theorem layerinfo_roundtrip (l : Layer) (hc : ∀ c, l.color = some c → ColOK c) :
     LayerEquiv l (rtLayer l) := by
   refine ⟨rfl, rfl, ?_, dictEquiv_sort l.lib, rfl⟩
   simp only [rtLayer]
   cases hcol : l.color with
   | none => trivial
   | some c =>
-    obtain ⟨r, g, b, a, rfl, hx⟩ := hc c hcol
-    simp only [Option.map_some, OptRel, milliCol, saveColor, ColEquiv]
-    exact ⟨chanEq_milli r (hx r (by simp)), chanEq_milli g (hx g (by simp)), chanEq_milli b (hx b (by simp)),
-      chanEq_milli a (hx a (by simp))⟩
+    have hx := hc c hcol
+    cases c with
+    | bits r g b a =>
+      simp only [Option.map_some, OptRel, milliCol, saveColor, ColEquiv]
+      exact ⟨chanEq_milli r (hx r (by simp)), chanEq_milli g (hx g (by simp)), chanEq_milli b (hx b (by simp)),
+        chanEq_milli a (hx a (by simp))⟩
+    | milli r g b a => simp [OptRel, milliCol, saveColor, ColEquiv]
 
 theorem dictEquiv_rtLib (f : Font) (hk : lookupKV objectLibsKey f.lib = none) : DictEquiv f.lib (rtLib f) := by
   unfold rtLib
